@@ -336,6 +336,10 @@ CARRIERS: List[Carrier] = [
     # the REAL list fields of a Call whose source interleaves them: a starred positional after a keyword, a keyword before a starred
     Carrier('callreal_args', 'r = f(a, x=1, *b)  # call\n', V0, 'args', 'r = f({}, x=1)\n', ['a', '*b'], ['p', '*q'], tmpl0='r = f(x=1)\n', refuse_re=r"try the '_args' field|at this location \(after keywords\)"),
     Carrier('callreal_kws', 'r = f(x=1, *b, y=2)  # call\n', V0, 'keywords', 'r = f(*b, {})\n', ['x=1', 'y=2'], ['z=3', '**q'], tmpl0='r = f(*b)\n', refuse_re=r"try the '_args' field"),
+    Carrier('callargs2', 'r = f(a, x=1, *b, y=2)  # call\n', V0, '_args', 'r = f({})\n', ['a', 'x=1', '*b', 'y=2'], ['c', 'z=3'],
+            elems=_args_elems, blank=_args_blank, elem_ops=False),
+    Carrier('callgen', 'r = f(i for i in x)  # g\n', V0, '_args', 'r = f({})\n', ['(i for i in x)'], ['w=1', '**q'], elems=_args_elems, blank=_args_blank, elem_ops=False),
+    Carrier('list_hash', 'x = [\n    a,  # ca\n    "c#d",  # cc\n]\ny = 1\n', V0, 'elts', 'x = [{}]\ny = 1\n', ['a', '"c#d"'], ['p', 'f"{q:#x}"']),
     # handlers inside an indented block with comments above them; names of a parenthesised from-import with comments between; type parameters with comments
     Carrier('handlers_ind', 'if 1:\n    try:\n        pass\n    except A: pass\n    # pre b\n    except B: pass\n    except C: pass\n', [('body', 0), ('body', 0)], 'handlers',
             'if 1:\n    try:\n        pass\n    {}\n', ['except A: pass', 'except B: pass', 'except C: pass'], ['except P:\n    pass', 'except Q as q:\n    pass'],
@@ -359,7 +363,7 @@ def _validate_carriers():
         e1 = c.get_elems(c.locate_ast(ast.parse(c.src)))
         e2 = c.parse_elems(c.old)
         assert e1 == e2, ('carrier self-check failed', c.id, e1, e2)
-        assert c.parse_elems(c.old + c.new) is not None or c.id in ('callargs', 'classbases'), ('new elems do not parse', c.id)
+        assert c.parse_elems(c.old + c.new) is not None or c.id in ('callargs', 'callargs2', 'callgen', 'classbases'), ('new elems do not parse', c.id)
 
 
 _validate_carriers()
@@ -656,7 +660,7 @@ FN_EDIT = ['fst.fst.FST.put_slice', 'fst.fst.FST.put', 'fst.fst.FST.insert', 'fs
 
 def c03_cells():
     cells = []
-    quick_carriers = ['list4c', 'tuple3', 'dict3', 'ifbody3', 'callargs', 'global3', 'orelse2', 'elifchain']
+    quick_carriers = ['list4c', 'tuple3', 'dict3', 'ifbody3', 'callargs', 'callargs2', 'callreal_args', 'callreal_kws', 'global3', 'orelse2', 'elifchain']
     for c in CARRIERS:
         for opname in OPS:
             if opname.startswith('elem_') and not c.elem_ops:
